@@ -15,7 +15,7 @@ for pid in sorted(PROPS):
         "evidence_file": "/verif/evidence/%s.json" % pid,
         "replay_cmd_template": "./check --replay {path}",
         "engine": "contracts",
-        "level_claimed": {"category": "proof", "text": LEVEL[pid]["text"], "design_ref": "DESIGN.md §5 " + pid},
+        "level_claimed": {"category": LEVEL[pid].get("category", "proof"), "text": LEVEL[pid]["text"], "design_ref": "DESIGN.md §5 " + pid},
         "level_note": LEVEL[pid]["note"],
         "technique": TECHNIQUE[pid],
     })
